@@ -194,12 +194,13 @@ class QUBOContainer:
 
         if obj_stats:
             obj_funct = self.get_objective_function_QUBO()
-            exp_val = 0.0
             # initialize to the objective value for [0, 0, ... ,0]
             opt_val = self.const_qubo
             second_best = None
             opt_count = 1
             N = 2 ** n
+            # (the all-zero assignment counts towards the mean as well)
+            exp_val = opt_val / N
             for v in range(1, N):
                 x = [int(s) for s in format(v, '0{}b'.format(n))]
                 obj_val = obj_funct(x)
@@ -210,7 +211,7 @@ class QUBOContainer:
                     second_best = opt_val
                     opt_val = obj_val
                     opt_count = 1
-                elif second_best is None:
+                elif second_best is None or obj_val < second_best:
                     second_best = obj_val
             # end loop over spins
             result["optimal_value"] = opt_val
